@@ -107,6 +107,9 @@ class Ctx:
         if os.environ.get("VERIF_PROPOSE"):
             pd = os.path.join(VERIF, "work", "proposals", self.pid)
             os.makedirs(pd, exist_ok=True)
+            for n in os.listdir(pd):
+                if n.endswith(".%s.txt" % self.tier) or n.endswith(".%s.detail.jsonl" % self.tier):
+                    os.unlink(os.path.join(pd, n))
             by = {}
             for v in new:
                 by.setdefault(v["kind"], []).append(v)
